@@ -186,7 +186,7 @@ func (vc *VC) loopHead(fr *Frame, blk *ssa.BasicBlock, ins []*Edge, name string)
 		sc.atLoop = blk
 		sc.pos = loopPos(blk)
 		for _, c := range lc.Clauses {
-			if c.Kind != "invariant" {
+			if c.Kind != "invariant" || (hasTag(c.Tags, "T") && !vc.thorough) {
 				continue
 			}
 			f, err := sc.formula(c.E)
@@ -259,6 +259,9 @@ func (vc *VC) loopInvariants(fr *Frame, blk *ssa.BasicBlock, at *Node, e *Edge, 
 			continue
 		}
 		j++
+		if hasTag(c.Tags, "T") && !vc.thorough {
+			continue
+		}
 		kind := "inv-init"
 		if phase == "preserve" {
 			kind = "inv-pres"
@@ -282,6 +285,7 @@ func (vc *VC) loopInvariants(fr *Frame, blk *ssa.BasicBlock, at *Node, e *Edge, 
 			}
 			ob := vc.newObl(name, kind, c.Tags, text, token.NoPos)
 			ob.Pos = fmt.Sprintf("%s:%d", strings.TrimPrefix(c.File, "/repo/"), c.Line)
+			ob.Loc = fmt.Sprintf("e%d.%s.%d", at.id, phase, len(at.out))
 			e.asserts = append(e.asserts, Cmd{Assert: true, F: f, Ob: ob})
 		}
 	}
